@@ -17,7 +17,12 @@ import gen_pkgs
 from gen_pkgs import MOD, basic, named
 
 PROBES = VERIF / "harness" / "probes"
-PLACEMENTS = ("in", "xt", "out")
+# layouts of the output file:
+#   in  : dir = source dir, pkgname = source package name        (true in-package: no self import, bare local types)
+#   xt  : dir = source dir, pkgname = <src>_test                 (external test package: must import and qualify the source package)
+#   out : another dir, another package name
+#   sn  : another dir, pkgname EQUAL to the source package's name (not in-package: must import and qualify)
+PLACEMENTS = ("in", "xt", "out", "sn")
 
 # --------------------------------------------------------------------------------------
 # AST helpers (types are gen_pkgs dicts)
@@ -264,6 +269,8 @@ def dst_of(m, k, placement):
         return s["path"], True
     if placement == "xt":
         return s["path"], False
+    if placement == "sn":
+        return m["mod"] + "/mocks2/" + s["name"], False
     return m["mod"] + "/mocks/" + s["name"], False
 
 
@@ -313,6 +320,8 @@ def config(m, root, template, fname, placements=PLACEMENTS):
                     cfgs.append({"dir": "{{.InterfaceDir}}", "pkgname": s["name"], "filename": fname["in"]})
                 elif pl == "xt":
                     cfgs.append({"dir": "{{.InterfaceDir}}", "pkgname": s["name"] + "_test", "filename": fname["xt"]})
+                elif pl == "sn":
+                    cfgs.append({"dir": str(root / "mocks2" / s["name"]), "pkgname": s["name"], "filename": fname["sn"]})
                 else:
                     cfgs.append({"dir": str(root / "mocks" / s["name"]), "pkgname": "mk", "filename": fname["out"]})
             if cfgs:
@@ -327,6 +336,8 @@ def out_path(m, k, root, placement, fname):
     s = m["srcs"][k]
     if placement == "out":
         return root / "mocks" / s["name"] / fname["out"]
+    if placement == "sn":
+        return root / "mocks2" / s["name"] / fname["sn"]
     return root / s["name"] / fname[placement]
 
 
@@ -338,8 +349,8 @@ def run_mockery(ctx, root, cfg, name):
     return p.returncode, (p.stdout + p.stderr).decode(errors="replace")
 
 
-DUMP_FILES = {"in": "zz_dump_in.txt", "xt": "zz_dump_xt.txt", "out": "zz_dump_out.txt"}
-REEMIT_FILES = {"in": "zz_reemit.go", "xt": "zz_reemit_x_test.go", "out": "zz_reemit.go"}
+DUMP_FILES = {"in": "zz_dump_in.txt", "xt": "zz_dump_xt.txt", "out": "zz_dump_out.txt", "sn": "zz_dump_sn.txt"}
+REEMIT_FILES = {"in": "zz_reemit.go", "xt": "zz_reemit_x_test.go", "out": "zz_reemit.go", "sn": "zz_reemit.go"}
 
 
 def parse_dump(text):
@@ -427,7 +438,7 @@ def assertion_file(m, k, placement):
     source constraints."""
     s = m["srcs"][k]
     ifs = [i for i in selected(s, placement)]
-    pkgname = {"in": s["name"], "xt": s["name"] + "_test", "out": "mk"}[placement]
+    pkgname = {"in": s["name"], "xt": s["name"] + "_test", "out": "mk", "sn": s["name"]}[placement]
     used = set()
     for i in ifs:
         for tp in i["tparams"]:
@@ -510,7 +521,7 @@ def value_run(m, root, oracle):
     return res
 
 
-ASSERT_FILES = {"in": "zz_assert.go", "xt": "zz_assert_x_test.go", "out": "zz_assert.go"}
+ASSERT_FILES = {"in": "zz_assert.go", "xt": "zz_assert_x_test.go", "out": "zz_assert.go", "sn": "zz_assert.go"}
 
 
 def go_check(root):
@@ -521,15 +532,16 @@ def go_check(root):
     lines = []
     p = run(["go", "build", "-gcflags=-e", "./..."], cwd=root, env=env, timeout=900)
     lines += (p.stdout + p.stderr).decode(errors="replace").split("\n")
-    p = run(["go", "list", "-test", "-export", "-e", "-f", "{{.ImportPath}}", "./..."], cwd=root, env=env, timeout=900)
-    lines += p.stderr.decode(errors="replace").split("\n")
+    # NOTE: with -e the compile errors of (external) test packages are NOT printed on stderr; they are in .Error
+    p = run(["go", "list", "-test", "-export", "-e", "-f", "{{if .Error}}{{.Error}}{{end}}", "./..."], cwd=root, env=env, timeout=900)
+    lines += (p.stdout + p.stderr).decode(errors="replace").split("\n")
     res = {}
     for e in lines:
-        mm = re.match(r"^(?:\./)?((?:mocks/)?[^/\s:]+)/([^/\s:]+\.go):\d+:\d+:\s*(.*)$", e.strip())
+        mm = re.match(r"^(?:\./)?((?:mocks2?/)?[^/\s:]+)/([^/\s:]+\.go):\d+:\d+:\s*(.*)$", e.strip())
         if not mm:
             continue
         d, f, msg = mm.groups()
-        pl = "out" if d.startswith("mocks/") else ("xt" if f.endswith("_test.go") else "in")
+        pl = "out" if d.startswith("mocks/") else "sn" if d.startswith("mocks2/") else ("xt" if f.endswith("_test.go") else "in")
         key = (d.split("/")[-1], pl)
         msg = re.sub(r'"[^"]*/([^"/]+)"\.', r"\1.", msg)
         if msg not in res.setdefault(key, []):
@@ -669,7 +681,7 @@ def extra_checks(m, k, pl, r):
     raw = r["raw"]
     for key, rest, at in r["extra"]:
         if key == "pkgname":
-            want = {"in": s["name"], "xt": s["name"] + "_test", "out": "mk"}[pl]
+            want = {"in": s["name"], "xt": s["name"] + "_test", "out": "mk", "sn": s["name"]}[pl]
             if rest != want:
                 errs.append("PkgName %r, configured %r" % (rest, want))
         elif key == "srcq":
